@@ -96,6 +96,7 @@ class C12(core.Check):
     def setup(self):
         self.mf = core.import_repo()
         simfs.install()
+        simfs.IO_HOOK = simsched.io_point
         mods = core.repo_modules()
         codes, files = simsched.code_objects_of_modules(mods)
         simsched.install(codes, files)
@@ -211,6 +212,7 @@ class C12(core.Check):
             weights["load"] = 1
         names = [a for a in weights if weights[a]]
         ops = []
+        same_v = k.choice(VERSIONS[1:]) if k.random() < 0.5 else None  # one version throughout: first use, fault, retry
         n = k.choice([5, 8, 12, 20, 40]) if tier == "thorough" else k.choice([5, 8, 12, 16])
         for _ in range(n):
             name = r.choices(names, [weights[a] for a in names])[0]
@@ -222,9 +224,20 @@ class C12(core.Check):
                 ops.append({"op": "pprint", "doc": d, "c": r.random() < 0.5, "p": r.random() < 0.3, "pp": r.randrange(len(PP_CONFIGS)),
                             "poke": r.choice([None, None, None, "web", "metadata", "layers"])})
             elif name == "validate":
-                ops.append({"op": "validate", "doc": d, "p": r.random() < 0.5, "version": r.choice(VERSIONS)})
+                ops.append({"op": "validate", "doc": d, "p": r.random() < 0.5, "version": same_v if same_v is not None else r.choice(VERSIONS)})
             else:
                 ops.append({"op": "export", "schema": r.choice(SMALL_SCHEMAS), "version": r.choice(VERSIONS), "how": r.choice(["versioned", "expanded"])})
+        if faults and k.random() < 0.4:
+            # motif: the FIRST versioned use of a schema meets an I/O error half-way, then the same question is
+            # asked again on the same Validator, about a document whose verdict depends on the version
+            vdoc, vver = r.choice([('LAYER\n  NAME "v"\n  TYPE POINT\n  CONNECTIONOPTIONS\n    "a" "b"\n  END\nEND\n', 7.0),
+                                   ('STYLE\n  ANTIALIAS TRUE\n  GAP 2\nEND\n', 8.0),
+                                   ('CLASS\n  NAME "c"\n  LABEL\n    SIZE 8\n    ENCODING "utf-8"\n  END\nEND\n', 8.2)])
+            vid = f"d{len(docs)}"
+            docs[vid] = vdoc
+            pre = [{"op": "validate", "doc": vid, "p": False, "version": vver} for _ in range(3)]
+            ops[0:0] = pre
+            reuse["validator"] = True
         tw = files.pop("__twin__", None)
         if tw:
             # print the document and its numeric twin with the same reused printer, in both orders
@@ -238,7 +251,7 @@ class C12(core.Check):
             f = s("faults")
             for _ in range(f.choice([1, 1, 2, 3])):
                 cls = f.choice(["schema", "schema", "schema", "simfs", "grammar"])
-                fl.append({"op": f.choice(["open", "open", "read"]), "cls": cls, "k": f.choice([1, 1, 2, 3, 5, 8, 13, 21, 34]),
+                fl.append({"op": f.choice(["open", "open", "read"]), "cls": cls, "k": f.choice([1, 1, 2, 2, 3, 4, 5, 8, 13, 21, 34]),
                            "err": f.choice(["EIO", "ENOENT", "EACCES"])})
         return {"prop": "C12", "world": "W1F" if faults else "W1", "seed": seed, "docs": docs, "files": files, "paths": paths,
                 "reuse": reuse, "ops": ops, "faults": fl}
@@ -262,6 +275,9 @@ class C12(core.Check):
         names = [a for a in weights if weights[a]]
         share_bias = k.choice([0.2, 0.6, 1.0])
         same_version = k.choice(VERSIONS[1:]) if k.random() < 0.5 else None
+        shared_save = k.random() < 0.35  # every save() of the run writes one and the same path
+        if shared_save and weights.get("save"):
+            weights["save"] = 6
         same_kw = {"include_comments": k.random() < 0.7, "include_position": k.random() < 0.4, "expand_includes": True} if k.random() < 0.5 else None
         threads = []
         for t in range(nthreads):
@@ -276,6 +292,8 @@ class C12(core.Check):
                     calls.append({"fn": fn, "doc": ids[di], "kw": dict(same_kw) if same_kw else kw})
                 elif fn in ("dumps", "dump", "save"):
                     calls.append({"fn": fn, "d": di, "kw": dict(PP_CONFIGS[r.randrange(len(PP_CONFIGS))])})
+                    if fn == "save" and shared_save:
+                        calls[-1]["shared_path"] = True
                 elif fn == "validate":
                     calls.append({"fn": fn, "d": di, "version": same_version if same_version is not None else r.choice(VERSIONS)})
                 elif fn in ("find", "findall"):
@@ -292,7 +310,9 @@ class C12(core.Check):
                 calls[0] = {"fn": "open", "doc": ids[t % len(ids)], "kw": dict(same_kw) if same_kw else
                             {"include_comments": False, "include_position": False, "expand_includes": True}}
             threads.append(calls)
-        sk = k.choice(["random", "random", "pct", "pct", "starve", "fine_start", "entry_sync", "entry_sync"])
+        sk = k.choice(["random", "random", "pct", "pct", "starve", "fine_start", "entry_sync", "entry_sync", "io_sync"])
+        if shared_save or paths:
+            sk = k.choice([sk, "io_sync"])  # races through files: let the order of file-system operations decide
         sched = {"kind": sk, "seed": s("schedule").randrange(1 << 30)}
         if sk == "pct":
             sched["d"] = k.choice([1, 2, 3])
@@ -550,10 +570,14 @@ class C12(core.Check):
             r = core.call(lambda: mf.dump(d, buf, **call["kw"]))
             return (r[0], [r[1], buf.getvalue()])
         if fn == "save":
-            path = f"/simfs/out/{tag}.map"
+            path = "/simfs/out/shared.map" if call.get("shared_path") else f"/simfs/out/{tag}.map"
             r = core.call(lambda: mf.save(d, path, **call["kw"]))
             data = simfs.ACTIVE.files.get(path)
             ret_ok = r[1] == path if r[0] == "ok" else r[1]  # save() returns the path it was given
+            if call.get("shared_path"):
+                # several threads write this path: what it holds right now is another thread's business;
+                # the content is checked once, after all threads have finished
+                return (r[0], [ret_ok, "<shared path>"])
             return (r[0], [ret_ok, None if data is None else data.decode("utf-8", "replace")])
         if fn == "validate":
             return core.call(lambda: mf.validate(d, version=call["version"]))[:2]
@@ -704,6 +728,24 @@ class C12(core.Check):
                         break
                 if not violation and [core.freeze(d) for d in dicts] != frozen_inputs:
                     violation = self.viol("argument_mutated", "threads", {"phase": "threaded"}, world="W2", op="thread")
+                shared_calls = [c for calls in case["threads"] for c in calls if c["fn"] == "save" and c.get("shared_path")]
+                if not violation and shared_calls and not fs.fired_faults:
+                    def texts():
+                        out = []
+                        for c in shared_calls:
+                            d_ = dicts[c["d"] % len(dicts)] if dicts else None
+                            r_ = core.call(lambda: mf.dumps(d_, **c["kw"])) if d_ is not None else ("exc",)
+                            if r_[0] == "ok":
+                                out.append(r_[2])
+                        return out
+
+                    allowed = core.in_fork(texts)
+                    have = fs.files.get("/simfs/out/shared.map")
+                    leftovers = sorted(p_ for p_ in fs.files if p_.startswith("/simfs/out/") and p_ != "/simfs/out/shared.map" and "shared" in p_)
+                    if allowed and (have is None or have.decode("utf-8", "replace") not in allowed or leftovers):
+                        violation = self.viol("shared_output_file_is_none_of_the_saved_documents", "save",
+                                              {"file": None if have is None else have.decode("utf-8", "replace")[:300], "leftover_files": leftovers},
+                                              world="W2", op="save")
         explicit = dict(case)
         explicit["schedule"] = {"kind": "segments", "segments": sched.segments}
         out = {
